@@ -218,6 +218,10 @@ pub fn amf_string(too_long: bool, allow_empty: bool) -> BoxedStrategy<S> {
         5 => "[a-zA-Z0-9_.@|/ -]{1,12}".prop_map(S::lit),
         3 => pick(NAME_POOL).prop_map(S::lit),
         2 => "\\PC{1,6}".prop_map(S::lit),
+        // control characters, NULs (leading, interior, trailing), whitespace at the ends, BOM,
+        // and arbitrary scalar values: all legal UTF-8 that a decoder must hand back untouched
+        1 => pick(&["\0", "ab\0\0", "\0ab", "a\0b", "tab\there", "\u{7f}", "line\n", " padded ", "\u{feff}bom", "\r\n", "\u{1}\u{2}", "x\u{0}"]).prop_map(S::lit),
+        1 => proptest::collection::vec(any::<char>(), 1..6).prop_map(|v| S::lit(v.into_iter().collect::<String>())),
         1 => pick(&[("a", 65535u32), ("a", 65534), ("é", 32767), ("€", 21845), ("😀", 16383), ("ab", 32767), ("a", 256), ("a", 255)])
             .prop_map(|(u, r)| S::rep(u, r)),
     ];
